@@ -2,11 +2,12 @@
   C19 — the validation logic of the constructors, as `Except`-valued total functions over plain data.
   Every function follows the control flow of the Python constructor named in its doc comment
   (`raise X` = `throw (.doc .X)`).  Unlike the other model files this one CAN express an internal error
-  (`VErr.internal "IndexError"`): two constructors reach an unguarded `[0]` / `min()` on an empty list, and
-  the theorems of Props/C19 characterise exactly when.
+  (`VErr.internal "IndexError"`), so that "never an internal error" is a theorem about the functions and not a
+  property of the type.  (Before the repairs cb56bb9 / 7977ad0 two constructors reached an unguarded `[0]` / `min()`
+  on an empty list; no function below produces `VErr.internal` any more: Props/C19 `never_internal`.)
 
     mkSingleP      SingleInterval.__init__            location_impl.py:56-72
-    mkCompoundRaw  CompoundInterval.__init__          location_impl.py:448-478   (negative coordinates pass: F-C19g)
+    mkCompoundRaw  CompoundInterval.__init__          location_impl.py:448-480   (negative starts refused since 0fcdb58)
     mkParent       Parent.__init__                    parent/parent.py:78-118
     mkSeq          Sequence.__init__                  sequence/sequence.py:57-70, 139-142
     initLoc        AbstractInterval.initialize_location (parent-less)  gene/interval.py:322-328
@@ -62,12 +63,12 @@ def maxEndI : List IBlk → Int
   | b :: bs => max b.2 (maxEndI bs)
 
 /-- the part of `CompoundInterval.__init__` that does not look at the parent: equal non-zero lengths,
-    sort, every `start <= end`.  NOTHING compares a coordinate with 0 (F-C19g). -/
+    sort, then for every block `start < 0` → InvalidPositionException, `start > end` → InvalidPositionException. -/
 def compoundCore (starts ends : List Int) (st : Strand) : V (List IBlk) :=
   if ¬ (starts.length = ends.length ∧ 0 < starts.length) then raise .Location
   else
     let sorted := sortBlocksI st (starts.zip ends)
-    if sorted.all (fun b => decide (b.1 ≤ b.2)) then pure sorted else raise .InvalidPosition
+    if sorted.all (fun b => decide (0 ≤ b.1) && decide (b.1 ≤ b.2)) then pure sorted else raise .InvalidPosition
 
 /-- `CompoundInterval.__init__`: with a parent, the location is first built WITHOUT the parent
     (`CompoundInterval(starts, ends, strand)`), handed to `Parent(..., location=...)` — which compares
@@ -205,10 +206,11 @@ def stripBoth (chars : List Char) (s : List Char) : List Char :=
 def alphabetOk (alph data : List Char) : Bool := (stripBoth alph (data.map pyUpper)).isEmpty
 
 /-- `Sequence.__init__`; `ploc`: `none` = no parent, `some none` = parent without location,
-    `some (some n)` = parent whose location has length n (a zero-length location is falsy: not compared). -/
+    `some (some n)` = parent whose location has length n (`location is not None`: a zero-length location is
+    compared as well, f283aa2). -/
 def mkSeq (alph data : List Char) (ploc : Option (Option Nat)) : V Nat := do
   match ploc with
-  | some (some n) => if n ≠ 0 ∧ n ≠ data.length then raise .MismatchedParent else pure ()
+  | some (some n) => if n ≠ data.length then raise .MismatchedParent else pure ()
   | _ => pure ()
   if alphabetOk alph data then pure data.length else raise .Alphabet
 
@@ -273,8 +275,8 @@ structure TxOut where
   deriving DecidableEq, Repr, Inhabited
 
 /-- lines 82-113 of `TranscriptInterval.__init__`: the CDS arguments.  `x0` / `xN` are `exon_starts[0]` /
-    `exon_ends[-1]`.  The CDS is compared with the exons by its OUTER bounds only, and `cds_starts[0]` is read
-    before anything checks that the list is non-empty. -/
+    `exon_ends[-1]`.  The CDS is compared with the exons by its OUTER bounds only (F-C19h); empty CDS lists are
+    refused before `cds_starts[0]` is read (cb56bb9). -/
 def txCds (x0 xN : Int) (st : Strand) (cdsS cdsE : Option (List Int)) (cdsF : Option (List CDSFrame)) :
     V (Option CDSOut) :=
   match cdsS, cdsE with
@@ -283,6 +285,7 @@ def txCds (x0 xN : Int) (st : Strand) (cdsS cdsE : Option (List Int)) (cdsF : Op
   | none, none => pure none
   | some cs, some ce =>
       if cs.length ≠ ce.length then raise .InvalidCDSInterval
+      else if cs.length = 0 then raise .InvalidCDSInterval
       else match cs.head?, ce.getLast? with
         | some c0, some cN =>
             if c0 < x0 then raise .InvalidCDSInterval
@@ -294,7 +297,7 @@ def txCds (x0 xN : Int) (st : Strand) (cdsS cdsE : Option (List Int)) (cdsF : Op
                   else do
                     let c ← mkCDS cs ce st (fr.map FP.frame)
                     pure (some c)
-        | _, _ => .error (.internal "IndexError")      -- `cds_starts[0]` on an empty list
+        | _, _ => raise .InvalidCDSInterval      -- unreachable: both lists are non-empty here
 
 /-- `TranscriptInterval.__init__` (parent-less) -/
 def mkTx (exS exE : List Int) (st : Strand) (cdsS cdsE : Option (List Int)) (cdsF : Option (List CDSFrame)) :
@@ -327,12 +330,14 @@ def minStart : List Blk → Nat
   | [b] => b.1
   | b :: bs => min b.1 (minStart bs)
 
-/-- `VariantIntervalCollection.__init__` over already constructed variants -/
+/-- `VariantIntervalCollection.__init__` over already constructed variants: an empty list is refused first
+    (7977ad0), then adjacent pairs of the start-sorted list are tested for overlap -/
 def mkVarCollOf (vs : List Blk) : V Blk :=
-  let sorted := sortByStart vs
-  if adjacentOverlap sorted then raise .LocationOverlap
-  else if sorted.isEmpty then .error (.internal "ValueError")      -- `min()` of an empty sequence
-  else pure (minStart sorted, maxEnd sorted)
+  if vs.isEmpty then raise .InvalidAnnotation
+  else
+    let sorted := sortByStart vs
+    if adjacentOverlap sorted then raise .LocationOverlap
+    else pure (minStart sorted, maxEnd sorted)
 
 /-- variants are constructed first, left to right -/
 def mkVarColl (raw : List (Int × Int)) : V Blk := do
